@@ -432,6 +432,8 @@ def gen_sched(rng, modes=ALL_MODES):
     """Swarm-style draw of an executor model and policy."""
     modes = list(modes)
     mode = rng.choices(modes, [1 if m == "threads" else 3 for m in modes])[0]
+    if os.environ.get("VERIF_FORCE_MODE") in ALL_MODES:  # targeted exploration / self-tests
+        mode = os.environ["VERIF_FORCE_MODE"]
     r = rng.random()
     if r < 0.6:
         policy = "random"
